@@ -98,9 +98,14 @@ def _chunk_worker(prop_id, tier, items):
     """runs in a pool process; items = [(index, seed)]"""
     from . import refmodel
     refmodel.quiet()
+    faulthandler.enable()      # a crash of the interpreter leaves its stack on stderr
     prop = load_prop(prop_id)
     out = []
     for index, seed in items:
+        kill = os.environ.get('VERIF_SELFTEST_KILL')      # self-test of the pool's recovery
+        if kill and kill.split(':')[0] == str(index) and not os.path.exists(kill.split(':')[1]):
+            open(kill.split(':')[1], 'w').close()
+            os._exit(9)
         faulthandler.dump_traceback_later(RUN_WATCHDOG_S, exit=True)
         try:
             res = one_run(prop, seed, tier, index)
@@ -122,15 +127,35 @@ def run_pool(prop_id, tier, items, workers, chunk=None):
     chunks = [items[i:i + chunk] for i in range(0, len(items), chunk)]
     ctx = multiprocessing.get_context('spawn')   # fork: COW faults are very slow in this VM
     results = []
-    with cf.ProcessPoolExecutor(max_workers=workers, mp_context=ctx) as ex:
-        futs = [ex.submit(_chunk_worker, prop_id, tier, c) for c in chunks]
-        try:
-            for f in cf.as_completed(futs, timeout=RUN_WATCHDOG_S * 4 + 3600):
-                results.extend(f.result())
-        except Exception as exc:   # BrokenProcessPool, timeout
-            for f in futs:
-                f.cancel()
-            raise HarnessError(f'worker pool failed: {type(exc).__name__}: {exc}')
+    pending = chunks
+    last_error = None
+    for attempt in range(4):
+        # a worker that dies (an interpreter crash, the watchdog) breaks the whole pool: what
+        # has no result yet is run again in a new pool, one run per task, so that a run that
+        # kills its interpreter every time ends up alone and is named
+        failed = []
+        with cf.ProcessPoolExecutor(max_workers=workers, mp_context=ctx) as ex:
+            futs = {ex.submit(_chunk_worker, prop_id, tier, c): c for c in pending}
+            try:
+                for f in cf.as_completed(futs, timeout=RUN_WATCHDOG_S * 4 + 3600):
+                    try:
+                        results.extend(f.result())
+                    except Exception as exc:   # BrokenProcessPool for this future
+                        last_error = exc
+                        failed.append(futs[f])
+            except Exception as exc:   # timeout of the whole batch
+                for f in futs:
+                    f.cancel()
+                raise HarnessError(f'worker pool failed: {type(exc).__name__}: {exc}')
+        if not failed:
+            break
+        print(f'[{prop_id}] worker pool broke ({type(last_error).__name__}), running '
+              f'{sum(len(c) for c in failed)} runs again (attempt {attempt + 2})', flush=True)
+        pending = [[item] for c in failed for item in c]
+    else:
+        seeds = [item[1] for c in pending for item in c][:5]
+        raise HarnessError(f'worker pool failed repeatedly: {type(last_error).__name__}: '
+                           f'{last_error}; runs without a result: seeds {seeds}')
     results.sort(key=lambda r: r['index'])
     return results
 
